@@ -363,6 +363,40 @@ def run(ctx, rep, model=None):
            "arguments forwarded unchanged" if args_ok else "dumper called with %s" % [A.src(a) for a in disp.args],
            ctx.loc(disp), kind="site")
 
+    # every use of the value in the dispatcher goes through its exact type or into the selected dumper: no lookup, comparison
+    # or emission keyed by the value itself happens before the type is known (1 == True == 1.0 would share an entry)
+    stray = []
+    for n in A.walk(f_dump.node):
+        if isinstance(n, ast.Name) and n.id == oprm and isinstance(n.ctx, ast.Load):
+            par = getattr(n, "_parent", None)
+            if isinstance(par, ast.Call) and A.call_name(par) == "type" and par.args and par.args[0] is n:
+                continue
+            if isinstance(par, ast.Call) and par is disp and any(a is n for a in par.args):
+                continue
+            stray.append(n)
+    emits = [c for c in A.calls(f_dump.node) if isinstance(c.func, ast.Attribute) and c.func.attr in ("append", "extend", "write")]
+    ok_only = not stray and not emits
+    rep.ob("R04.2", "brine._dump: nothing is decided or emitted from the value before its exact type is known", ok_only,
+           "the value is only passed to type() and to the selected dumper" if ok_only else
+           "_dump uses the raw value (`%s`) / emits bytes itself before dispatching on the exact type: an equality-keyed "
+           "shortcut makes True, 1 and 1.0 (or 0.0 and -0.0) share an encoding" % (
+               A.src(getattr(stray[0], "_parent", stray[0]))[:60] if stray else A.src(emits[0])[:60]),
+           ctx.loc(stray[0] if stray else emits[0]) if (stray or emits) else f_dump.loc, kind="site")
+    # no equality-keyed memoisation anywhere in the codec
+    memo = []
+    for q, f in sorted(ctx.repo.funcs.items()):
+        if f.module is not mod:
+            continue
+        for d in f.node.decorator_list:
+            dn = A.dotted(d.func if isinstance(d, ast.Call) else d) or ""
+            if dn.split(".")[-1] in ("lru_cache", "cache", "memoize", "memoized", "cached"):
+                memo.append((f, d))
+    rep.ob("R04.2", "brine: no function of the codec is memoised by argument equality", not memo,
+           "no lru_cache/cache decorator in %s" % mod.relpath if not memo else
+           "%s is wrapped in %s: cache keys compare by == and hash, so values that are equal but of different exact type or sign "
+           "(True/1/1.0, 0.0/-0.0, IntEnum members, str subclasses, frozensets of such) get each other's answer"
+           % (memo[0][0].name, A.src(memo[0][1])), ctx.loc(memo[0][1]) if memo else mod.relpath, kind="site")
+
     # ------------------------------------------------------------------ R04.4
     vals = list(m.tags.items())
     bad = [n for n, v in vals if not (isinstance(v, bytes) and len(v) == 1)]
